@@ -2422,7 +2422,12 @@ func (c *codegen) convertBuiltin(expr *ast.CallExpr) {
 		emit.Opcodes(c.prog.BinWriter, opcode.PUSHNULL)
 		c.emitStoreByIndex(varGlobal, c.exceptionIndex)
 	case "delete":
+		// Deleting from a nil map is a no-op.
+		emit.Opcodes(c.prog.BinWriter, opcode.OVER, opcode.ISNULL)
+		emit.Instruction(c.prog.BinWriter, opcode.JMPIF, []byte{2 + 1 + 2})
 		emit.Opcodes(c.prog.BinWriter, opcode.REMOVE)
+		emit.Instruction(c.prog.BinWriter, opcode.JMP, []byte{2 + 2})
+		emit.Opcodes(c.prog.BinWriter, opcode.DROP, opcode.DROP)
 	case "ToHash160":
 		// We can be sure that this is an ast.BasicLit just containing a simple
 		// address string. Note that the string returned from calling Value will
